@@ -10,6 +10,7 @@ T5  ITER: next() writes only the offset, nothing on the None path; Clone is deri
 T6  ModuleIter::next = find(typ == TagType::Module) on the inner TagIter, then cast::<ModuleTag>; module_tags() wraps tags()
 """
 from .. import an
+from .. import select as SEL
 from .. import chain as CH
 from .. import guard as G
 from .. import mir as M
@@ -170,31 +171,21 @@ def run(ctx):
         ctx.fail("ANCHOR", "ModuleIter::next", "exists", "", "%d" % len(mn))
     else:
         B = an.of(F, mn[0])
-        rt, _ = B.ret()
-        n = N(rt) if rt is not None else None
+        sel, why = SEL.analyse(F, mn[0])
         g = False
-        why = G.show(rt)[:300]
-        if n is not None and n[0] == "call" and cn(n[1]) == "core::option::Option::map":
-            fnd, mapc = n[2]
-            if fnd[0] == "call" and "Iterator>::find" in str(fnd[1]) and "TagIter<" in str(fnd[1]):
-                itarg, fc = fnd[2]
-                inner_it = ("ref", fld(deref(arg(1)), 0))
-                it_ok = itarg in (inner_it, fld(deref(arg(1)), 0)) or (itarg[0] == "ref" and itarg[1] == fld(deref(arg(1)), 0))
-                # closures
-                fcl = closure_ret(F, fc)
-                mcl = closure_ret(F, mapc)
-                t2 = "multiboot2::tag_type::primitive_conversion_impls::<impl core::convert::From<multiboot2::tag_type::TagType> for u32>::from"
-                pred_ok = False
-                if fcl is not None and fcl[0] == "bin" and fcl[1] == "Eq":
-                    sides = (fcl[2], fcl[3])
-                    c = [x for x in sides if x[0] == "call" and x[1] == t2 and x[2][0][0] == "cs" and x[2][0][2] == "Module"]
-                    tf = [x for x in sides if x[0] == "fld" and x[2] == 0 and x[1][0] == "fld" and x[1][2] == 0]
-                    pred_ok = len(c) == 1 and len(tf) == 1
-                map_ok = mcl is not None and mcl[0] == "call" and cn(mcl[1]) == "multiboot2_common::DynSizedStructure::cast" and "ModuleTag" in str(mcl[1]) and mcl[2] == (arg(2),)
-                # cast is single-return and gets inlined: its return term is the typed fat pointer over the same tag (C15.K2/K4)
-                map_ok = map_ok or (mcl is not None and mcl[0] == "fatptr" and mcl[1] == arg(2) and str(mcl[3]).endswith("::ModuleTag"))
-                g = it_ok and pred_ok and map_ok
-                why = "iter ok=%s predicate ok=%s map ok=%s" % (it_ok, pred_ok, map_ok)
+        if sel is not None:
+            inner = fld(deref(arg(1)), 0)
+            it_ok = SEL.canon_place(SEL.unref(sel["iter"])) == SEL.canon_place(inner) or SEL.unref(sel["iter"]) == inner
+            t2 = "multiboot2::tag_type::primitive_conversion_impls::<impl core::convert::From<multiboot2::tag_type::TagType> for u32>::from"
+            sides = SEL.eq_sides(sel["pred"])
+            pred_ok = False
+            if sides is not None and sides[2] is None:
+                c = [x for x in sides[:2] if x[0] == "call" and x[1] == t2 and SEL.unref(x[2][0])[0] == "cs" and SEL.unref(x[2][0])[2] == "Module"]
+                tf = [x for x in sides[:2] if SEL.canon_place(x) == fld(fld(fld(deref(SEL.ELEM), 0), 0), 0)]
+                pred_ok = len(c) == 1 and len(tf) == 1
+            map_ok = SEL.is_cast_of_elem(sel["map"], ty_suffix="ModuleTag")
+            g = it_ok and pred_ok and map_ok
+            why = "form %s: iter ok=%s predicate ok=%s map ok=%s" % (sel["form"], it_ok, pred_ok, map_ok)
         ctx.check(g, "T6", "ModuleIter::next", "ModuleIter::next() = inner TagIter .find(|t| u32 image of t.typ == u32 image of TagType::Module) .map(|t| t.cast::<ModuleTag>())",
                   B.site(), how=why, why=why)
     mt = F.insts.get(BI + "module_tags")
